@@ -5,7 +5,8 @@ interpreter in the middle of the recursive walk over the document tree, after th
 cached or reconfigured whatever it needs. Shape x depth ladder:
 
   shapes   html-div, html-list, html-table, mhtml-div, epub-div, odt-span, docx-sdt, docx-smarttag, pptx-group, rtf-group,
-           zip-html (archive member), eml-multipart (depth/10 nested multipart/mixed entities)
+           zip-html (archive member), eml-multipart (depth/10 nested multipart/mixed entities), odf-mrow (formula document
+           whose MathML has no StarMath annotation - the reader has to render the <mrow> tree itself)
   depths   q = L0/4 (extracted on the unchanged tree), 2 = 2*L0, 16 = 16*L0, 128 = 128*L0 nested elements around the one
            text token, L0 = 1000 = CPython's default recursion limit (a constant, NOT sys.getrecursionlimit(): the bytes
            of a document must not depend on the state of the process that writes them)
@@ -24,10 +25,10 @@ _DOC = ["doc", {"title": "Tt"}, [["unit", [["p", [["t", TOKEN]]]], {}]]]
 _GRP = '<p:grpSp><p:nvGrpSpPr><p:cNvPr id="9" name="G"/><p:cNvGrpSpPr/><p:nvPr/></p:nvGrpSpPr><p:grpSpPr/>'
 
 SHAPES = ("html-div", "html-list", "html-table", "mhtml-div", "epub-div", "odt-span", "docx-sdt", "docx-smarttag", "pptx-group",
-          "rtf-group", "zip-html", "eml-multipart")
+          "rtf-group", "zip-html", "eml-multipart", "odf-mrow")
 NAMES = {"html-div": "deep/div.html", "html-list": "deep/list.html", "html-table": "deep/table.html", "mhtml-div": "deep/div.mhtml",
          "epub-div": "deep/div.epub", "odt-span": "deep/span.odt", "docx-sdt": "deep/sdt.docx", "docx-smarttag": "deep/smarttag.docx",
-         "pptx-group": "deep/group.pptx", "rtf-group": "deep/group.rtf", "zip-html": "deep/member.zip", "eml-multipart": "deep/multipart.eml"}
+         "pptx-group": "deep/group.pptx", "rtf-group": "deep/group.rtf", "zip-html": "deep/member.zip", "eml-multipart": "deep/multipart.eml", "odf-mrow": "deep/mrow.odf"}
 
 
 def _nest(zb: bytes, member: str, target: str, o: str, c: str, d: int, stored: bool = False) -> bytes:
@@ -91,6 +92,9 @@ def build(shape: str, depth: str) -> bytes:
             z.writestr(zipfile.ZipInfo("a.html", (2020, 1, 1, 0, 0, 0)), _html(d))
             z.writestr(zipfile.ZipInfo("b.txt", (2020, 1, 1, 0, 0, 0)), "Bcdfgh")
         return out.getvalue()
+    if shape == "odf-mrow":
+        return odf.odf(["doc", {"title": "Tt"}, [["unit", [["p", [["t", "Bbcdfg"], ["t", "Cdfghj"]]]], {}]]],
+                       opts={"formula_annotation": False, "formula_nesting": d})
     if shape == "eml-multipart":
         n = d // 10
         head = "From: a@b.example\r\nTo: c@d.example\r\nSubject: Sbcdfg\r\nDate: Mon, 01 Jan 2024 00:00:00 +0000\r\nMIME-Version: 1.0\r\n"
